@@ -121,6 +121,64 @@ func runC17(c c17Case) *Violation {
 			return violf("stream-broken-by-keepalive", "paced stream over %v delivered %d of 8 values (closed=%v) on a healthy link", dur, len(items), closed)
 		}
 		return healthy()
+	case "long_call_after_redial":
+		// a reset and a successful redial first: keepalive must work on the second connection too
+		rig.Proxy.CutAll("rst")
+		ok := false
+		for deadline := time.Now().Add(3 * time.Second); time.Now().Before(deadline); {
+			if rig.Probe(cl, time.Second) == nil {
+				ok = true
+				break
+			}
+		}
+		if !ok {
+			return nil
+		}
+		n0 := rig.Proxy.ConnCount()
+		p := rig.Go(cl, "call", rig.Tok("long2"), Plan{Gate: true})
+		time.Sleep(dur)
+		rig.W.Release(p.Tok)
+		select {
+		case <-p.Done:
+		case <-time.After(3*time.Second + T):
+			return violf("long-call-hangs", "a call lasting %v on a re-established connection did not return", dur)
+		}
+		if p.Err != nil {
+			return violf("long-call-failed", "a call lasting %v on a re-established, healthy connection failed (timeout %v, ping %v, server ping %v): %v", dur, T, ping, sp, p.Err)
+		}
+		time.Sleep(dur / 2) // and an idle gap
+		if err := rig.Probe(cl, 3*time.Second+T); err != nil {
+			return violf("call-after-idle-failed", "a call after idleness on a re-established connection failed: %v", err)
+		}
+		if n := rig.Proxy.ConnCount(); n != n0 {
+			return violf("healthy-link-dropped", "the client reconnected again on a healthy re-established link: %d -> %d connections", n0, n)
+		}
+		return nil
+	case "steady_notifications":
+		// one-way traffic only: a steady stream of notifications for longer than the timeout, nothing coming back
+		end := time.Now().Add(dur)
+		gap := ping / 2
+		if sp > 0 && sp/3 < gap {
+			gap = sp / 3
+		}
+		n := 0
+		for time.Now().Before(end) {
+			p := rig.Go(cl, "notify", rig.Tok("n"), Plan{})
+			select {
+			case <-p.Done:
+			case <-time.After(2 * time.Second):
+				return violf("notify-hangs", "a notification did not return on a healthy link")
+			}
+			if p.Err != nil {
+				return violf("notify-failed", "notification %d of a steady one-way stream failed on a healthy link (timeout %v, ping %v, server ping %v): %v", n, T, ping, sp, p.Err)
+			}
+			n++
+			time.Sleep(gap)
+		}
+		if err := rig.Probe(cl, 3*time.Second+T); err != nil {
+			return violf("call-after-idle-failed", "a call after %v of one-way traffic failed: %v", dur, err)
+		}
+		return healthy()
 	case "blackhole_fresh_steady":
 		// the peer falls silent right after the connection was established (nothing received on it yet) while the
 		// application keeps issuing calls more often than the timeout
@@ -247,7 +305,7 @@ const c17Rule = "client timeout 600-1500 ms with ping = timeout/4..timeout/8, se
 func TestC17(t *testing.T) {
 	rec := NewRec("C17", c17Rule)
 	defer rec.Finish(t)
-	rec.RequireClass("scenario_blackhole_fresh_steady", "scenario_long_call", "scenario_idle_then_call", "scenario_stream", "scenario_mixed", "scenario_blackhole_pending", "scenario_blackhole_idle", "server_ping_off", "server_ping_on", "longer_than_timeout")
+	rec.RequireClass("scenario_long_call_after_redial", "scenario_steady_notifications", "scenario_blackhole_fresh_steady", "scenario_long_call", "scenario_idle_then_call", "scenario_stream", "scenario_mixed", "scenario_blackhole_pending", "scenario_blackhole_idle", "server_ping_off", "server_ping_on", "longer_than_timeout")
 	var mu sync.Mutex
 	var firstV *Violation
 	var firstC c17Case
@@ -270,11 +328,11 @@ func TestC17(t *testing.T) {
 		var cases []c17Case
 		k := 0
 		seed := envInt("VERIF_SEED", 1)
-		for _, sc := range []string{"long_call", "mixed", "idle_then_call", "stream", "blackhole_pending", "blackhole_idle", "blackhole_fresh_steady"} {
+		for _, sc := range []string{"long_call", "mixed", "idle_then_call", "stream", "blackhole_pending", "blackhole_idle", "blackhole_fresh_steady", "long_call_after_redial", "steady_notifications"} {
 			for _, f := range []float64{0.3, 1.6, 3.0} {
 				for _, spOn := range []bool{false, true} {
 					k++
-					if !thorough() && (k+seed)%2 != 0 {
+					if !thorough() && (k+seed)%2 != 0 && f != 1.6 {
 						continue
 					}
 					T := []int{600, 800, 1000}[(k+seed)%3]
@@ -309,7 +367,7 @@ func TestC17(t *testing.T) {
 	rec.Rapid(t, "rapid", func(rt *rapid.T) {
 		T := rapid.SampledFrom([]int{600, 800, 1000, 1500}).Draw(rt, "timeout")
 		c := c17Case{TimeoutMs: T, PingDiv: rapid.IntRange(4, 8).Draw(rt, "pingdiv"), ServerPingMs: -1,
-			Scenario: rapid.SampledFrom([]string{"long_call", "mixed", "idle_then_call", "stream", "blackhole_pending", "blackhole_idle", "blackhole_fresh_steady"}).Draw(rt, "scenario"),
+			Scenario: rapid.SampledFrom([]string{"long_call", "mixed", "idle_then_call", "stream", "blackhole_pending", "blackhole_idle", "blackhole_fresh_steady", "long_call_after_redial", "steady_notifications"}).Draw(rt, "scenario"),
 			Factor:   float64(rapid.IntRange(1, 30).Draw(rt, "factor10")) / 10}
 		if rapid.Bool().Draw(rt, "serverping") {
 			c.ServerPingMs = int(float64(T) / (2.2 + float64(rapid.IntRange(0, 60).Draw(rt, "spdiv10"))/10))
